@@ -621,7 +621,7 @@ pub fn run_c09(tier: Tier) -> i32 {
     let thorough = tier == Tier::Thorough;
     // (a) all byte strings over a 10-symbol protocol alphabet
     let alphabet: &[u8] = &[b'O', b'K', b'\n', b':', b' ', b'b', b'1', b'A', b'[', 0xff];
-    let maxlen = tier.pick(5, 6);
+    let maxlen = tier.pick(6, 7);
     let strings = bytes_over(alphabet, maxlen);
     let acc_a = strings
         .par_chunks(2048)
